@@ -518,7 +518,13 @@ def check_comparators(prog, chk, rule_id):
         cases = [("equal", base, list(base), 1), ("first octet differs", base, [2] + base[1:], 0), ("second octet differs", base, [1, 0x10] + base[2:], 0),
                  ("middle octet differs", base, base[:2] + [0x23] + base[3:], 0), ("last octet differs", base, base[:-1] + [0x45], 0),
                  ("shorter", base, base[:-1], 0), ("longer", base, base + [0], 0), ("empty both", [], [], 1), ("one octet equal", [7], [7], 1),
-                 ("one octet differs", [7], [8], 0)]
+                 ("one octet differs", [7], [8], 0),
+                 # differences that cancel in an accumulator other than OR: same mask twice (xor), +1/-1 (sum), masks a, b, a^b, swapped octets
+                 ("two octets differ by the same mask", base, [1, 0x11 ^ 0x80, 0x22, 0x33 ^ 0x80, 0x44], 0),
+                 ("three octets differ by masks a, b, a^b", base, [1, 0x11 ^ 0x0f, 0x22 ^ 0x31, 0x33 ^ 0x3e, 0x44], 0),
+                 ("two octets differ by +1 and -1", base, [1, 0x12, 0x21, 0x33, 0x44], 0),
+                 ("two octets swapped", base, [1, 0x22, 0x11, 0x33, 0x44], 0),
+                 ("all octets differ", base, [x_ ^ 0xff for x_ in base], 0)]
         for name, x, y, want in cases:
             if fname == "KSI_DataHash_equals" and not x:
                 continue        # an imprint always has its algorithm octet
